@@ -21,6 +21,29 @@ from multiprocessing import Pool
 from harness import dalvik_spec as DS
 from harness.fw import VERIF, Check, Driver, hexs
 
+_DEX = "androguard/core/dex/__init__.py"
+# every hand-modelled function (Model/Sweep.lean); a changed normalised-AST hash escalates the search (fw.pins_changed)
+PINS = [
+    ("androguard/core/dex/__init__.py", "LinearSweepAlgorithm.get_instructions"),
+    ("androguard/core/dex/__init__.py", "get_instruction"),
+    ("androguard/core/dex/__init__.py", "get_optimized_instruction"),
+    ("androguard/core/dex/__init__.py", "get_instruction_payload"),
+    ("androguard/core/dex/__init__.py", "PackedSwitch.__init__"),
+    ("androguard/core/dex/__init__.py", "PackedSwitch.get_length"),
+    ("androguard/core/dex/__init__.py", "PackedSwitch.get_raw"),
+    ("androguard/core/dex/__init__.py", "SparseSwitch.__init__"),
+    ("androguard/core/dex/__init__.py", "SparseSwitch.get_length"),
+    ("androguard/core/dex/__init__.py", "SparseSwitch.get_raw"),
+    ("androguard/core/dex/__init__.py", "FillArrayData.__init__"),
+    ("androguard/core/dex/__init__.py", "FillArrayData.get_length"),
+    ("androguard/core/dex/__init__.py", "FillArrayData.get_raw"),
+    ("androguard/core/dex/__init__.py", "DCode.__init__"),
+    ("androguard/core/dex/__init__.py", "DCode.get_instructions"),
+    ("androguard/core/dex/__init__.py", "DCode.off_to_pos"),
+    ("androguard/core/dex/__init__.py", "DCode.get_ins_off"),
+    ("androguard/core/dex/__init__.py", "DalvikPacker"),
+]
+
 _R = {}
 
 
@@ -109,7 +132,13 @@ def judge(req, real, expect=None):
         if off + n > code_end:
             return ("yielded item runs past the end of the code", f"<= {code_end}", f"{name} at {off} length {n}")
         if raw != buf[off:off + n].hex():
-            return ("yielded item does not re-encode to the bytes at its offset", buf[off:off + n].hex(), f"{name} at {off}: {raw}")
+            want = buf[off:off + n].hex()
+            if len(want) > 400:
+                k = next((i for i, (x, y) in enumerate(zip(raw, want)) if x != y), min(len(raw), len(want))) // 2
+                return ("yielded item does not re-encode to the bytes at its offset", f"the {n} bytes at offset {off}",
+                        f"{name} at {off}: get_raw() gives {len(raw) // 2 if raw != 'err' else 'an error instead of'} bytes, "
+                        f"first difference at byte {k} of the item")
+            return ("yielded item does not re-encode to the bytes at its offset", want, f"{name} at {off}: {raw}")
     if expect is not None:
         got = [(off, raw) for off, _, _, raw in items]
         exp = [(off, r.hex()) for off, r in expect]
@@ -254,12 +283,180 @@ def run_stream(ck, drv, stream, reqs, expects=None):
     return real
 
 
+# ------------------------------------------------------------------ large-size boundary stream (deterministic)
+def _shorten(line):
+    """replace the raw hex of long items by a digest so that replies of MiB-sized items stay comparable and small"""
+    import hashlib
+    out, _, rest = line.partition(" ")
+    if not rest:
+        return line
+    its = []
+    for it in rest.split(";"):
+        w = it.split(":")
+        if len(w) == 4 and len(w[3]) > 64:
+            w[3] = "sha1=" + hashlib.sha1(w[3].encode()).hexdigest()[:16] + "/" + str(len(w[3]) // 2)
+        its.append(":".join(w))
+    return out + " " + ";".join(its)
+
+
+_BKINDS = ("u1", "u2", "u3", "u5", "packed", "sparse", "fill")
+
+
+def _bitem(kind, rng):
+    if kind == "u1":
+        return DS.random_insn(rng, 0x12)          # const/4        1 unit
+    if kind == "u2":
+        return DS.random_insn(rng, 0x13)          # const/16       2 units
+    if kind == "u3":
+        return DS.random_insn(rng, 0x14)          # const          3 units
+    if kind == "u5":
+        return DS.random_insn(rng, 0x18)          # const-wide     5 units (the longest format)
+    if kind == "packed":
+        return DS.payload_encode("packed", first_key=-7, targets=[3, -1, 2 ** 31 - 1])
+    if kind == "sparse":
+        return DS.payload_encode("sparse", keys=[-5, 9], targets=[-2 ** 31, 12])
+    return DS.payload_encode("fill", element_width=1, data=b"\x07\x08\x09")   # odd length: padding byte
+
+
+def _bprogram(sled, targets, kind, rng):
+    """a valid program in which an item of `kind` starts exactly at each byte offset of `targets`"""
+    out, items = bytearray(), []
+
+    def put(b):
+        items.append((len(out), bytes(b)))
+        out.extend(b)
+    wide = DS.encode(0x18, AA=1)
+    for T in targets:
+        while len(out) < T:
+            rem = T - len(out)
+            if sled == "wide" and rem >= 10:
+                put(wide)
+            elif sled == "mix" and rem >= 12:
+                ins = DS.random_insn(rng)
+                put(ins if len(ins) <= rem else b"\0\0")
+            else:
+                put(b"\0\0")                     # nop (also the final alignment of the other sleds)
+        put(_bitem(kind, rng))
+    put(b"\x0e\x00")                             # return-void
+    return bytes(out), items
+
+
+def _bfill(width, size):
+    data = (bytes(range(256)) * (size * width // 256 + 1))[: size * width]
+    p = DS.payload_encode("fill", element_width=width, data=data)
+    out, items = bytearray(), []
+    for b in (b"\0\0", b"\0\0", p, b"\x0e\x00"):
+        items.append((len(out), bytes(b)))
+        out.extend(b)
+    return bytes(out), items
+
+
+def boundary_labels(full):
+    """labels of the boundary stream, each regenerated on its own by boundary_case(label).
+    full = thorough tier or escalated (a pinned function changed)."""
+    L = []
+    for kind in _BKINDS:
+        for d in range(-12, 13, 2):
+            L.append(f"nop:{kind}:{d}:4096,8192,12288")
+            L.append(f"mix:{kind}:{d}:4096,8192,12288")
+            L.append(f"wide:{kind}:{d}:65536")
+            if full:
+                L.append(f"mix:{kind}:{d}:65536")
+                L.append(f"nop:{kind}:{d}:65536")
+    # fill-array-data payloads whose total size (8 + data, padded to even) is just below / at / above B
+    for B in (1 << 16, 1 << 20, (1 << 20) + 8):
+        for w in (1, 2, 4, 8):
+            at = (B - 8) // w                       # B - 8 is a multiple of 8: total size exactly B
+            sizes = [at - 1, at, at + 1] + ([at - 2] if w == 1 else [])   # width 1: at - 1 is odd (padding byte), at - 2 is below
+            if not full and B > (1 << 16):                      # quick tier: 8 instead of 26 MiB-sized payloads
+                sizes = {(1 << 20, 1): [at - 1, at, at + 1], (1 << 20, 4): [at], ((1 << 20) + 8, 1): [at, at + 1],
+                         ((1 << 20) + 8, 2): [at + 1], ((1 << 20) + 8, 8): [at + 1]}.get((B, w), [])
+            for size in sizes:
+                L.append(f"fill:{w}:{size}")
+    L.append("packed:65535")
+    L.append("sparse:65535")
+    return L
+
+
+def boundary_case(label):
+    """-> (request, expected items); deterministic, independent of VERIF_SEED"""
+    w = label.split(":")
+    rng = random.Random("C02-boundary-" + label)
+    if w[0] in ("nop", "mix", "wide"):
+        d = int(w[2])
+        code, items = _bprogram(w[0], [int(t) + d for t in w[3].split(",")], w[1], rng)
+    elif w[0] == "fill":
+        code, items = _bfill(int(w[1]), int(w[2]))
+    else:
+        n = int(w[1])
+        i32 = lambda: rng.randint(-2 ** 31, 2 ** 31 - 1)
+        if w[0] == "packed":
+            p = DS.payload_encode("packed", first_key=i32(), targets=[i32() for _ in range(n)])
+        else:
+            p = DS.payload_encode("sparse", keys=sorted(rng.sample(range(-2 ** 31, 2 ** 31), n)), targets=[i32() for _ in range(n)])
+        code, items = bytearray(), []
+        for b in (b"\0\0", p, b"\x0e\x00"):
+            items.append((len(code), bytes(b)))
+            code.extend(b)
+        code = bytes(code)
+    return f"sweep 0 {len(code) // 2} 0 {hexs(code)}", items
+
+
+def _bchunk(labels):
+    from harness.fw import quiet_androguard
+    quiet_androguard()
+    out = []
+    for lb in labels:
+        rq, exp = boundary_case(lb)
+        rl = canon_real(rq)
+        v = judge(rq, rl, exp)
+        if v is not None:
+            v = tuple(str(x)[:300] for x in v)
+        out.append((_shorten(rl), v))
+    return out
+
+
+def _bmodel(args):
+    exe, labels = args
+    return [_shorten(x) for x in Driver(exe).ask([boundary_case(lb)[0] for lb in labels])]
+
+
+def run_boundary(ck, full, procs=12):
+    labels = boundary_labels(full)
+    # heavy cases first, dealt round-robin so that every worker gets its share
+    order = sorted(range(len(labels)), key=lambda i: (not labels[i].startswith("fill"), "65536" not in labels[i], i))
+    parts = [[labels[i] for i in order[k::procs]] for k in range(procs)]
+    with ThreadPoolExecutor(procs) as ex:
+        mfut = [ex.submit(_bmodel, ("drv_C02", p)) for p in parts]
+        with Pool(procs) as pool:
+            rres = pool.map(_bchunk, parts)
+        mres = [f.result() for f in mfut]
+    flat = [lb for p in parts for lb in p]
+    real = [r for part in rres for r, _ in part]
+    verd = [v for part in rres for _, v in part]
+    model = [m for part in mres for m in part]
+    ck.compare("boundary", ["boundary " + lb for lb in flat], real, model)
+    dist = {"boundary:programs": len(flat)}
+    for lb, rl in zip(flat, real):
+        k = "boundary:" + lb.split(":")[0] + ":" + rl.split(" ")[0].split("@")[0]
+        dist[k] = dist.get(k, 0) + 1
+    nf = 0
+    for lb, v in zip(flat, verd):
+        if v is not None and nf < 20:
+            nf += 1
+            ck.fail({"boundary": lb}, v[0], None, v[1], v[2])
+    ck.cover(evaluations=len(flat), distinct=set(flat),
+             samples=[{"request": "boundary " + flat[i], "real": real[i][:160]} for i in (0, len(flat) // 2, len(flat) - 1)], dist=dist)
+
+
 def corpus_cases():
     return [(os.path.basename(p), json.load(open(p))) for p in sorted(glob.glob(os.path.join(VERIF, "corpus", "C02", "*.json")))]
 
 
 def run(ck: Check):
     _real()
+    ck.pins_changed(PINS)
+    big = (not ck.quick) or ck.escalated     # a pinned (hand-modelled) function changed: thorough sizes in the quick tier too
     ck.run_gen("opcodes")
     ck.prove(exes=["drv_C02"])
     drv = Driver("drv_C02")
@@ -267,19 +464,24 @@ def run(ck: Check):
     ck.rule = ("assembled valid programs (1-13 items over all defined opcodes incl. fe/ff with every register byte, nop padding, "
                "payloads of random sizes, aligned and misaligned), their byte mutations / truncations / size-field inflations "
                "with declared size below, at and above the buffer and start index 0/2/4/odd/end, random buffers biased to defined "
-               "opcodes (ODEX flag on 25-30%), all 65536 one-unit codes; distinct = distinct request")
+               "opcodes (ODEX flag on 25-30%), all 65536 one-unit codes; distinct = distinct request.  "
+               "Deterministic large-size boundary stream (every run): 12-65 KiB programs (nop / mixed / const-wide sleds) with an "
+               "instruction of each length class (1, 2, 3, 5 units) and each payload kind starting at every even offset within "
+               "+-12 bytes of 0x1000, 0x2000, 0x3000 and 0x10000; fill-array-data payloads of total size just below / at / above "
+               "2^16, 2^20, 2^20+8 bytes (widths 1, 2, 4, 8); packed / sparse switch payloads with 0xFFFF entries")
     creqs = [c["request"] for _, c in corpus_cases()]
     if creqs:
         run_stream(ck, drv, "corpus", creqs)
-    nprog = 6000 if ck.quick else 150000
+    run_boundary(ck, big)
+    nprog = 150000 if big else 6000
     progs = gen_programs(rng, nprog)
     run_stream(ck, drv, "assembled", [p[0] for p in progs], [p[1] for p in progs])
-    run_stream(ck, drv, "mutated", gen_mutations(rng, progs, 15000 if ck.quick else 500000))
-    run_stream(ck, drv, "random", gen_random(rng, 10000 if ck.quick else 400000))
+    run_stream(ck, drv, "mutated", gen_mutations(rng, progs, 500000 if big else 15000))
+    run_stream(ck, drv, "random", gen_random(rng, 400000 if big else 10000))
     run_stream(ck, drv, "small", gen_small_exhaustive())
     # DCode.off_to_pos / get_ins_off on assembled programs
     preqs, pexp = [], []
-    for rq, items in progs[: (2000 if ck.quick else 20000)]:
+    for rq, items in progs[: (20000 if big else 2000)]:
         _, a, buf = parse_req(rq)
         offs = [o for o, _ in items]
         for off in {rng.choice(offs), rng.randrange(0, len(buf) + 3), offs[-1]}:
@@ -303,6 +505,21 @@ def replay(ck: Check, rp):
     c = rp.get("case") or rp.get("first_divergence") or {}
     rq = c.get("request")
     print("replay", c)
+    lb = c.get("boundary") or (rq[len("boundary "):] if rq and rq.startswith("boundary ") else None)
+    if lb:
+        rq, exp = boundary_case(lb)
+        kind, a, buf = parse_req(rq)
+        print(f"boundary case {lb}: sweep odex=0 size={a[1]} idx=0 over {len(buf)} bytes; expected {len(exp)} items, "
+              f"last three at {[(o, len(r)) for o, r in exp[-3:]]}")
+        real = canon_real(rq)
+        print("real :", _shorten(real)[-400:])
+        try:
+            print("model:", _shorten(Driver("drv_C02").ask([rq])[0])[-400:])
+        except Exception as e:  # noqa
+            print("model: (driver unavailable)", e)
+        v = judge(rq, real, exp)
+        print("judge:", tuple(str(x)[:300] for x in v) if v else None)
+        return 0
     if rq:
         real = canon_real(rq)
         print("real :", real)
